@@ -93,6 +93,13 @@ def gen_case(rng):
     for j in range(int(rng.integers(0, 3))):
         k2 = 'q%d' % j; pk.append(k2)
         assets.append(gen.gen_contract(rng, g, 'c%d' % j, gen.pick(rng, nodes), f, k2, take=False))
+    if mode == 'coarse' and rng.random() < 0.3:
+        # a second asset with the SAME own frequency but another lifetime (it keeps the option on both sides of the comparison)
+        k2 = 'qcomp'; pk.append(k2)
+        comp = gen.gen_contract(rng, g, 'comp', gen.pick(rng, nodes), f, k2, window=False, take=False, simple=True, dict_caps=False)
+        comp['freq'] = X['freq']; comp['wacc'] = 0.
+        comp['start'], comp['end'], _k = gen.gen_window(rng, g, kinds=['inside', 'straddle_start', 'straddle_end', 'start_only', 'end_only'])
+        assets.append(comp)
     perm = rng.permutation(len(assets)); assets = [assets[int(i)] for i in perm]
     return {'grid': g, 'assets': assets, 'prices': gen.gen_prices(rng, T, sorted(set(pk)))}, mode, cls
 
@@ -206,6 +213,8 @@ def run_case(rng, tier, case):
             case.reject(flow.describe_error(r)); return
         case.check('option.setup_works', False, **who, error=flow.describe_error(r)); return
     case.check('option.setup_works', True, **who)
+    # (the set-up works on its own copies: the price data handed in are the caller's)
+    case.check('option.price_data_untouched', not r.prices_changed, **who, changed_keys=r.prices_changed[:4])
     if not r.solved:
         case.inconc('not solved: ' + str(r.res)); return
     single = len(r.built.portfolio.nodes) == 1
